@@ -176,11 +176,12 @@ impl ArgMatcher {
                 Some(compare_macro) => {
                     let span = pat_macro.mac.path.span();
                     let tokens = pat_macro.mac.tokens;
-                    let local_ident = syn::Ident::new(&format!("l{local_counter}"), span);
+                    // hygienic: must not be captured by (or collide with) bindings in the user's patterns
+                    let ident_span = span.resolved_at(proc_macro2::Span::mixed_site());
+                    let local_ident = syn::Ident::new(&format!("l{local_counter}"), ident_span);
                     *local_counter += 1;
 
-                    let pat_bind_ident =
-                        syn::Ident::new(&format!("m{index}"), pat_macro.mac.path.span());
+                    let pat_bind_ident = syn::Ident::new(&format!("m{index}"), ident_span);
 
                     Self::Compare(CompareMatcher {
                         span,
